@@ -72,8 +72,8 @@ def shard(ctx):
                                'jobs': [{'op': 'load', 'module': 'user', 'text': text}, {'op': 'run', 'goal': q + ' .', 'limit': 2, 'pred': 'runr'}]})
     if ctx.shard == 2:
         # fixed probe of the shape behind known finding K43
-        text = ('c07_k43p(1, f(a)).\nc07_k43p(a, b).\nc07_k43p(1, a).\nc07_k43q(c).\n'
-                'c07_k43(A) :- ( ( c07_k43p(f(B), A) -> c07_k43q(A) ; c07_k43q(_) ) -> c07_k43p(A, B) ; true ).\n')
+        text = ('c07_k43p(1, f(a)).\nc07_k43p(a, b).\nc07_k43p(1, a).\nc07_k43q([a]).\nc07_k43q(c).\nc07_k43r(_, B) :- c07_k43q(B), c07_k43q(_).\n'
+                'c07_k43(A) :- ( ( c07_k43p(f(B), A) -> c07_k43r(C, A) ; c07_k43r(B, C) ) -> c07_k43p(A, B) ; c07_k43q(C) ).\n')
         if arith.load_clauses(rec, w, text):
             q = 'findall(X, c07_k43(X), R)'
             o = arith.run_goal(w, q, var='R')
